@@ -485,7 +485,7 @@ structure Req where
   ifMatch : Bytes
   force : Bool        -- Cache-Control: must-revalidate
   ct : CT             -- Content-Type
-deriving Repr
+deriving DecidableEq, Repr
 
 /-- `strings.Contains(ct, "/json")`: what `handleConfig` requires of a request with a body -/
 def Req.ctJSON (r : Req) : Bool := r.ct.containsJSON
